@@ -19,6 +19,65 @@ def dump_path(cls):
     return os.path.join(TBDIR, cls + ".dtm")
 
 
+def ind_path(cls, tag):
+    return os.path.join(TBDIR, "ind_%s_%s.dtm" % (tag, cls))
+
+
+def solve(c, classes, tag):
+    """Independent retrograde solution (mini rules engine only, no engine code) of each class, self-checked with the
+    forward Bellman equations; written to ind_path(cls, tag). A failing self-check is a harness failure (the oracle's own bug)."""
+    os.makedirs(TBDIR, exist_ok=True)
+    res = []
+    for cls in classes:
+        path = ind_path(cls, tag)
+        if os.path.exists(path):
+            os.unlink(path)
+        r = core.run_proc([B.exe("rel", "h_tb"), "solve", cls, str(core.NCPU), path], timeout=3600)
+        res.append(r)
+        if r.viols or r.reports or r.rc != 0 or not os.path.exists(path):
+            raise core.HarnessError("independent tablebase solver failed its self-check for %s: %s" % (cls, (r.viols or r.reports or [r.rc])[:1]))
+    return core.merge_stats(res)
+
+
+def compare_dumps(cls, a, b, limit=3):
+    """byte-compare two dumps of the same class; returns (number of differing entries, witnesses)"""
+    import array
+    with open(a, "rb") as fa, open(b, "rb") as fb:
+        ha, hb = fa.readline(), fb.readline()
+        da, db = fa.read(), fb.read()
+    if ha != hb or len(da) != len(db):
+        return -1, ["header/size mismatch"]
+    if da == db:
+        return 0, []
+    va, vb = array.array("h"), array.array("h")
+    va.frombytes(da); vb.frombytes(db)
+    k2 = cls.index("K", 1)
+    men = [(ch, True) for ch in cls[:k2]] + [(ch.lower(), False) for ch in cls[k2:]]
+    n, wit = 0, []
+    for i in range(len(va)):
+        if va[i] != vb[i]:
+            n += 1
+            if len(wit) < limit:
+                idx, wtm = i >> 1, i & 1
+                board = {}
+                for ch, _ in men:
+                    sq = idx % 65; idx //= 65
+                    if sq != 64:
+                        board[sq] = ch
+                rows = []
+                for r in range(7, -1, -1):
+                    row, e = "", 0
+                    for f in range(8):
+                        ch = board.get(r * 8 + f)
+                        if ch is None:
+                            e += 1
+                        else:
+                            row += (str(e) if e else "") + ch; e = 0
+                    rows.append(row + (str(e) if e else ""))
+                wit.append("%s %s - - 0 1: engine table %d, independent solution %d" % ("/".join(rows), "w" if wtm else "b", va[i], vb[i]))
+    return n, wit
+
+
 def sweep(c, classes, variant="rel", threads=None, keep=True):
     """Sweep classes one after another (each uses all cores). Returns merged stats."""
     os.makedirs(TBDIR, exist_ok=True)
@@ -43,6 +102,16 @@ def run(c):
         four.append("KQKR")     # needed by C13/C04 style consumers and the abort runs
     classes = THREE + four
     st, _ = sweep(c, classes)
+    # second, independent oracle: a retrograde solution computed without any engine code must be identical entry by entry
+    ist = solve(c, classes, "C12")
+    ncmp = 0
+    for cls in classes:
+        if os.path.exists(dump_path(cls)):
+            nd, wit = compare_dumps(cls, dump_path(cls), ind_path(cls, "C12"))
+            ncmp += 1
+            for w in wit:
+                c.violation("tb-vs-independent-solution", "differs", "%s %s (%d entries differ; encoding 0 draw, +n win in n, -(n+1) lost in n)" % (cls, w, nd))
+        os.unlink(ind_path(cls, "C12"))
     # ASan/UBSan/_GLIBCXX_ASSERTIONS: all three-men classes (index arithmetic, symmetry mapping, TT byte region)
     st_a, _ = sweep(c, THREE if quick else THREE + ["KQKR", "KBNK", "KKRR"], variant="asan", keep=False)
     # aborted generations
@@ -71,7 +140,7 @@ def run(c):
               "distinct_nontrivial = checked positions with a decisive value (all enumerated positions are distinct). Abort cases: stop flag / time limit fired at a "
               "uniformly random fraction of the generation time, then 20000 random hash inserts/probes, then 3000 random probes must be 'not found' or exact, then "
               "an unrestricted updateTB must make every probe exact")
-    c.extra.update(classes_swept=classes, classes_exhaustive=True, exhaustive=not quick, quick_note="quick sweeps all 3-men classes and %s; thorough sweeps all 44" % four,
+    c.extra.update(classes_swept=classes, classes_compared_with_independent_solution=ncmp, independent_solver_unmove_edges=ist.get('unmove_edges', 0), classes_exhaustive=True, exhaustive=not quick, quick_note="quick sweeps all 3-men classes and %s; thorough sweeps all 44" % four,
                    positions_checked=st.get("positions_checked", 0), moves_followed=st.get("moves_followed", 0),
                    probes_vector_backend=st.get("probes_vector", 0), probes_tt_backend=st.get("probes_tt", 0),
                    max_win_dtm=st.get("max_win_dtm", 0), asan_positions_checked=st_a.get("positions_checked", 0),
